@@ -99,6 +99,18 @@ func snapshot(v reflect.Value, cmap ast.CommentMap) (val *value) {
 	case reflect.Struct:
 		children := make([]*value, v.NumField())
 		for i := 0; i < v.NumField(); i++ {
+			if t == goast.FileType {
+				switch t.Field(i).Name {
+				case "Imports", "Unresolved":
+					// These list nodes of the declarations once more.
+					// A removed import is seen when its declaration is
+					// compared; what lies between two entries of these
+					// lists (the next import declaration's doc comment,
+					// say) is not part of either.
+					children[i] = &value{t: t.Field(i).Type}
+					continue
+				}
+			}
 			children[i] = snapshot(v.Field(i), cmap)
 		}
 		return &value{
